@@ -231,6 +231,7 @@ def task_steps(tier, seed, arg):
     notes.append("the second private table (clause iii) is only present when the public group is "
                  "loaded: digesting it while the public group is pending would itself be a first "
                  "touch")
+    notes.extend(L.stability_note())
     notes.append("wall %.1fs" % (time.time() - t0))
     return _result(
         "steps", len(evaluations), distinct,
@@ -766,6 +767,7 @@ def task_histories(tier, seed, arg):
     notes.append("failing histories: %d of %d; failures split per (table, group) and clustered by "
                  "diff signature into %d causes; each representative shrunk by single-event deletion"
                  % (failing, len(hs), len(clusters)))
+    notes.extend(L.stability_note())
     notes.append("wall %.1fs" % (time.time() - t0))
     return _result(
         "histories", len(hs), len(distinct),
